@@ -263,7 +263,7 @@ fn gen_valid_cmds(g: &mut G<'_>, stmts: &mut Vec<(u32, usize)>) -> Vec<Vec<u8>> 
 }
 
 fn mutate_payload(g: &mut G<'_>, p: &mut Vec<u8>) -> &'static str {
-    match g.weighted(&[4, 3, 3, 2, 2, 2, 1]) {
+    match g.weighted(&[4, 3, 3, 2, 2, 2, 1, 1]) {
         0 => {
             let k = g.usize_in(0, p.len());
             p.truncate(k);
@@ -303,6 +303,29 @@ fn mutate_payload(g: &mut G<'_>, p: &mut Vec<u8>) -> &'static str {
             }
             "delete-range"
         }
+        7 => {
+            // a long, valid-UTF-8, unterminated text field: the fixed-size head of the payload (or
+            // a prefix of any length) followed by ASCII and then a run of 2-, 3- or 4-byte
+            // characters, so that character boundaries fall at every residue of every offset
+            let keep = match g.below(4) {
+                0 => 32.min(p.len()),
+                1 => 1.min(p.len()),
+                2 => p.len(),
+                _ => g.usize_in(0, p.len()),
+            };
+            p.truncate(keep);
+            let ascii = g.usize_in(0, 300);
+            p.extend(std::iter::repeat(b'a' + g.below(26) as u8).take(ascii));
+            let ch = *g.pick(&["\u{e9}", "\u{20ac}", "\u{1f600}", "\u{7ff}", "\u{ffff}"]);
+            let n = g.usize_in(1, 200);
+            for _ in 0..n {
+                p.extend_from_slice(ch.as_bytes());
+            }
+            if g.chance(1, 4) {
+                p.push(0);
+            }
+            "long-utf8-text"
+        }
         _ => {
             let i = g.usize_in(0, p.len());
             let n = g.usize_in(1, 5);
@@ -321,7 +344,7 @@ impl Prop for C20 {
         "C20"
     }
     fn rule(&self) -> String {
-        "cases = (1) enumerated, exhaustive: every packet payload of length 0-4 over a 12-symbol alphabet (all command bytes, 0x00, 0xff, an unknown command) after a valid handshake and as the handshake response; every raw (unframed) stream of length <= 5 over a 6-symbol alphabet after the handshake and from the start; every COM_STMT_EXECUTE parameter-block body of length 0-4 over an 8-symbol alphabet for statements declaring 0, 1, 2 and 9 parameters; every COM_QUERY consisting of a built-in prefix (`USE `, `use `, `SELECT @@`, `USE`) and a tail of length 0-4 over {back-quote, ';', blank, 'a', tab, '@', a broken UTF-8 lead byte}; (2) generated: grammar-aware mutations of valid conversations (truncate / extend / delete / insert at any offset of any command or of the handshake response, set bytes to boundary values, flip bits, replace the command byte, declared-vs-sent parameter count mismatches, unknown type codes, executes without bound types, every request sequence id 0-255, header length fields larger or smaller than the payload) and random byte streams, under 1-byte to whole-stream read chunkings; (3) enumerated multi-fragment (>= 2^24-1 byte) requests with in-order, out-of-order, repeated and wrapping fragment sequence ids, each under plain 4 MiB reads and under reads that end 1-3 bytes into every fragment header. Oracle: run_on returns Ok or Err, never panics, never keeps reading after end of stream (read budget), and everything it wrote is a sequence of well-formed packets. Known panic sites are matched by (file, source line text, message) signature and reported as KNOWN-FINDING; any other signature is a violation. Non-trivial = the stream differs from every valid conversation (all enumerated and mutated cases) and is at least 1 byte long.".into()
+        "cases = (1) enumerated, exhaustive: every packet payload of length 0-4 over a 12-symbol alphabet (all command bytes, 0x00, 0xff, an unknown command) after a valid handshake and as the handshake response; every raw (unframed) stream of length <= 5 over a 6-symbol alphabet after the handshake and from the start; every COM_STMT_EXECUTE parameter-block body of length 0-4 over an 8-symbol alphabet for statements declaring 0, 1, 2 and 9 parameters; every COM_QUERY consisting of a built-in prefix (`USE `, `use `, `SELECT @@`, `USE`) and a tail of length 0-4 over {back-quote, ';', blank, 'a', tab, '@', a broken UTF-8 lead byte}; (2) generated: grammar-aware mutations of valid conversations (truncate / extend / delete / insert at any offset of any command or of the handshake response, set bytes to boundary values, flip bits, replace the tail of a payload by 1-1000 bytes of valid unterminated UTF-8 text whose multi-byte characters straddle every offset, replace the command byte, declared-vs-sent parameter count mismatches, unknown type codes, executes without bound types, every request sequence id 0-255, header length fields larger or smaller than the payload) and random byte streams, under 1-byte to whole-stream read chunkings; (3) enumerated multi-fragment (>= 2^24-1 byte) requests with in-order, out-of-order, repeated and wrapping fragment sequence ids, each under plain 4 MiB reads and under reads that end 1-3 bytes into every fragment header. Oracle: run_on returns Ok or Err, never panics, never keeps reading after end of stream (read budget), and everything it wrote is a sequence of well-formed packets. Known panic sites are matched by (file, source line text, message) signature and reported as KNOWN-FINDING; any other signature is a violation. Non-trivial = the stream differs from every valid conversation (all enumerated and mutated cases) and is at least 1 byte long.".into()
     }
     fn exhaustive_note(&self, _tier: Tier) -> Option<String> {
         Some("payloads of length <= 4 over 12 symbols (as command and as handshake), raw streams of length <= 5 over 6 symbols (after and instead of the handshake), execute parameter-block bodies of length <= 4 over 8 symbols for 0/1/2/9 declared parameters, built-in query prefixes with every tail of length <= 4 over 7 symbols".into())
